@@ -167,7 +167,8 @@ htp_cfg_t *make_cfg(const Config &c, std::string *tmpdir_out) {
     for (auto &d : c.dec) apply_dec(cfg, d);
     if (c.extract && tmpdir_out) {
         char tmpl[] = "/tmp/vdrv-xf-XXXXXX";
-        if (mkdtemp(tmpl)) { *tmpdir_out = tmpl; htp_config_set_tmpdir(cfg, tmpl); htp_config_set_extract_request_files(cfg, 1, c.extract > 1 ? c.extract : -1); }
+        // libhtp keeps the pointer: it must outlive the configuration (the Session owns the string)
+        if (mkdtemp(tmpl)) { *tmpdir_out = tmpl; htp_config_set_tmpdir(cfg, (char *)tmpdir_out->c_str()); htp_config_set_extract_request_files(cfg, 1, c.extract > 1 ? c.extract : -1); }
     }
     htp_config_register_request_start(cfg, cb_req_start); htp_config_register_request_line(cfg, cb_req_line);
     htp_config_register_request_uri_normalize(cfg, cb_req_uri_norm); htp_config_register_request_header_data(cfg, cb_req_hdr_data);
